@@ -36,6 +36,8 @@ def strategy(tier):
         "prefill": st.sampled_from([False, False, True]),
         # a symbolic link 'zz_alias' to the first subdirectory, with input.follow_symlinks off (default) or on
         "alias": st.sampled_from([None, None, None, "nofollow", "follow"]),
+        # the same process documented the same path before, when the subdirectories were still empty
+        "warm": st.sampled_from([False, False, True]),
     })
 
 
@@ -89,6 +91,14 @@ def evaluate(case):
         res.labels.append("dir-without-cmake")
     with S.Sandbox("c13") as sb:
         inp = sb.path("in")
+        if case.get("warm"):
+            res.labels.append("same-path-documented-before-the-tree-was-filled")
+
+            def skeleton(t, top=True):
+                return {"files": dict(t["files"]) if top else {}, "dirs": {k: skeleton(v, False) for k, v in t["dirs"].items()}}
+            S.materialize(skeleton(tree), inp)
+            S.run_main([inp, "-r", "-o", sb.path("warm-out")], cwd=sb.path("cwd"))
+            S.run_main([inp, "-o", sb.path("warm-out2")], cwd=sb.path("cwd"))
         S.materialize(tree, inp)
         alias = case.get("alias") if [d for d in tree["dirs"] if not d.startswith("_out")] else None
         if alias:
